@@ -118,6 +118,9 @@ class TEBD(TTNTimeEvolution):
                                   u_identifier=identifiers[0],
                                   v_identifier=identifiers[1],
                                   svd_params=self.svd_parameters)
+        # Applying the gate and splitting destroys a canonical form the state
+        # might have had, so no orthogonality center may be assumed anymore.
+        self.state.orthogonality_center_id = None
 
     def _apply_one_trotter_step(self, unitary: NumericOperator):
         """
